@@ -6,6 +6,8 @@ pub mod c07;
 pub mod c09;
 pub mod c10;
 pub mod c11;
+pub mod c14;
+pub mod c15;
 pub mod c20;
 
 use crate::session::Session;
@@ -21,6 +23,8 @@ pub fn run(s: &mut Session, ctx: &Ctx, prop: &str) -> bool {
         "C09" => c09::run(s, ctx),
         "C10" => c10::run(s, ctx),
         "C11" => c11::run(s, ctx),
+        "C14" => c14::run(s, ctx),
+        "C15" => c15::run(s, ctx),
         "C20" => c20::run(s, ctx),
         _ => return false,
     }
